@@ -1049,6 +1049,15 @@ func (r *resolver) expandAugment(y *Augment, parent Meta) error {
 			h.setWhen(y.when.inheritedBy(h.When()))
 		}
 		if targetIsChoice {
+			// what enter does for the cases a choice is written with
+			if hasIf, valid := d.(HasIfFeatures); valid {
+				if on, ferr := checkFeature(hasIf); ferr != nil {
+					return ferr
+				} else if !on {
+					r.leftOutByFeature(targetChoice, d.Ident())
+					continue
+				}
+			}
 			if cs, isCase := d.(*ChoiceCase); isCase {
 				if err = targetChoice.addCase(cs); err != nil {
 					return err
